@@ -122,6 +122,22 @@ def variants_form_x_dec(stmt, n, base):
                 yield tuple(ops)
 
 
+KINDS = ("missing", "dir", "noexec", "sig")
+
+
+def variants_kind(stmt, n, base, full):
+    """One operand (each position in turn) is a command that cannot be started / a child that dies of a signal.
+    `missing` takes every form x decorator (full: every kind does); the other kinds every decorator, bare."""
+    for i in range(n):
+        for kind in KINDS:
+            forms = ("bare", "hid", "unc", "out", "obj") if (full or kind == "missing") else ("bare",)
+            for f in forms:
+                for d in DECS:
+                    ops = [tuple(base)] * n
+                    ops[i] = (f, d, base[2], False, kind)
+                    yield tuple(ops)
+
+
 def all_subchains(t):
     """True when the chain's top boolean operator (after Python precedence) has ONLY sub-chains as operands,
     e.g. `a && b || c && d`, `(a || b) && (c || d)`: no command is a direct operand of the outermost operator."""
@@ -159,6 +175,12 @@ def blocks(thorough):
             # decorator x form on one operand (it is the deciding one for half of the code assignments)
             dict(id="expr-form-x-dec", stmt="expr", nmax=2, bases=("name", "words"), seps=(";", "nl"), variant="form_x_dec"),
             dict(id="assign-form-x-dec", stmt="assign", nmax=2, bases=("name", "words"), variant="form_x_dec"),
+            # commands that cannot be started (missing word, ./file without x bit, ./directory) and a real child
+            # that dies of SIGTERM, in every operand position; negative codes returned by aliases
+            dict(id="expr-kinds-n2", stmt="expr", nmax=2, bases=("name", "words"), variant="kind"),
+            dict(id="expr-kinds-n3", stmt="expr", nmin=3, nmax=3, bases=("words",), variant="kind_bare", uniform=True),
+            dict(id="expr-negcodes-n2", stmt="expr", nmax=2, k=1, bases=("name", "words"), codes=(0, -1, -15)),
+            dict(id="expr-negcodes-n3", stmt="expr", nmin=3, nmax=3, bases=("name", "words"), codes=(0, -1), uniform=True),
         ]
     else:
         spec = [
@@ -176,6 +198,9 @@ def blocks(thorough):
             dict(id="expr-n4-subchains-semicolon", stmt="expr", nmin=4, nmax=4, bases=("name", "words"), seps=(";",), only="all_subchains"),
             dict(id="if-n4-subchains", stmt="if", nmin=4, nmax=4, bases=("name", "words"), only="all_subchains"),
             dict(id="assign-n4-subchains", stmt="assign", nmin=4, nmax=4, bases=("name", "words"), only="all_subchains"),
+            dict(id="expr-kinds-n2", stmt="expr", nmax=2, bases=("name", "words"), seps=(";", "nl"), variant="kind_full"),
+            dict(id="expr-kinds-n3", stmt="expr", nmin=3, nmax=3, bases=("name", "words"), variant="kind_bare"),
+            dict(id="expr-negcodes", stmt="expr", nmax=3, k=1, bases=("name", "words"), codes=(0, -1, -15)),
         ]
     return [dict(d, **b) for b in spec]
 
@@ -202,7 +227,14 @@ def block_items(bi, b):
             sis = [si for si in sis if all_subchains(shp[si])]
         for base_text in b["bases"]:
             base = _base_op(b["stmt"], base_text)
-            vs = variants_form_x_dec(b["stmt"], n, base) if b["variant"] == "form_x_dec" else variants(b["stmt"], n, base, b["k"])
+            if b["variant"] == "form_x_dec":
+                vs = variants_form_x_dec(b["stmt"], n, base)
+            elif b["variant"] in ("kind", "kind_full", "kind_bare"):
+                vs = variants_kind(b["stmt"], n, base, b["variant"] == "kind_full")
+                if b["variant"] == "kind_bare":
+                    vs = [v for v in vs if all(o[0] == "bare" and o[1] == "" for o in v)]
+            else:
+                vs = variants(b["stmt"], n, base, b["k"])
             for ops in vs:
                 if b["variant"] is None and _ndev(ops, base) < b["kmin"]:
                     continue
@@ -220,7 +252,7 @@ def mkprog(stmt, tree, ops, sep):
     return {
         "stmt": stmt,
         "tree": tree,
-        "ops": [dict(form=o[0], dec=o[1], text=o[2], pipe=bool(o[3])) for o in ops],
+        "ops": [dict(form=o[0], dec=o[1], text=o[2], pipe=bool(o[3]), **({"kind": o[4]} if len(o) > 4 else {})) for o in ops],
         "sep": "nl" if stmt == "if" else sep,
     }
 
@@ -298,6 +330,20 @@ def _install_aliases(threaded):
     _THREADED = threaded
 
 
+def _mk_unstartable(d, logging_child=False):
+    """./nxN (file without x bit), ./ddN (directory) and bin/kN (a real child that kills itself with SIGTERM)."""
+    os.makedirs(os.path.join(d, "bin"), exist_ok=True)
+    for n in range(1, MAXN + 1):
+        with open(os.path.join(d, f"nx{n}"), "w") as f:
+            f.write("#!/bin/sh\nexit 0\n")
+        os.chmod(os.path.join(d, f"nx{n}"), 0o644)
+        os.makedirs(os.path.join(d, f"dd{n}"), exist_ok=True)
+        path = os.path.join(d, "bin", f"k{n}")
+        with open(path, "w") as f:
+            f.write("#!/bin/sh\n" + (f'printf "%s\\n" "k{n} $*" >> "$C05_LOG"\n' if logging_child else "") + "kill -TERM $$\nsleep 5\n")
+        os.chmod(path, 0o755)
+
+
 def _init_worker():
     global _XSH, _THREADED
     from .session import load_session
@@ -305,7 +351,9 @@ def _init_worker():
 
     ensure_tables(completion=False)
     d = common.scratch_dir("c05")
-    _XSH = load_session(data_dir=d, path=[d])
+    _mk_unstartable(d)
+    os.chdir(d)
+    _XSH = load_session(data_dir=d, path=[os.path.join(d, "bin")])
     _THREADED = None
     signal.signal(signal.SIGALRM, _alarm)
 
@@ -409,7 +457,7 @@ def _signature(prog, codes, R, C, outs, log, exc):
         return "exception-class", rc_flags, exc[0], dev if dev is not None else 0
     if where == "cmd" and cmds[: len(ecmds)] == ecmds and (exc is None or len(cmds) > len(ecmds)):
         # the statement wants the raise at this command itself; the implementation went on
-        dev = _owner(prog, ecmds[-1])
+        dev = elast
         if prog["ops"][dev]["dec"] == "error_raise":
             return "cmd-raise", rc_flags, "error_raise-ignored", dev
         full = {n: codes.get(n, 0) for n in all_names(prog)}
@@ -438,13 +486,14 @@ def _signature(prog, codes, R, C, outs, log, exc):
         sig = "ran-extra"
     else:
         sig = "ran-other"
-    ent = cmds[j - 1] if j > 0 else (ecmds[0] if ecmds else cmds[0])
-    dev = _owner(prog, ent)
+    ent = cmds[j - 1] if j > 0 else (ecmds[0] if ecmds else (cmds[0] if cmds else None))
+    dev = _owner(prog, ent) if ent else 0
     return "short-circuit", rc_flags, sig, dev if dev is not None else 0
 
 
-def _descr(op, pipe):
-    return f"{op['form']}/{op['dec'] or '-'}" + ("/pipe" if pipe else "")
+def _descr(op, pipe, neg=False):
+    kind = op.get("kind", "alias")
+    return f"{op['form']}/{op['dec'] or '-'}" + ("/pipe" if pipe else "") + (f"/{kind}" if kind != "alias" else "") + ("/rc<0" if neg else "")
 
 
 def _has_group(t):
@@ -489,7 +538,8 @@ def make_key(prog, codes, R, C, outs, log, exc, runner=None):
         s2 = _rerun(p2, c2, R, C, runner)
         if s2 not in (None, "ok") and s2[:3] == (clause, flags, sig) and s2[3] == dev and line_kind(p2) == lk:
             pipe = False
-    return f"{clause}:{flags}:{sig}:{_descr(op, pipe)}:{lk}", clause
+    neg = codes.get(ref.names(dev, op)["main"], 0) < 0
+    return f"{clause}:{flags}:{sig}:{_descr(op, pipe, neg)}:{lk}", clause
 
 
 def _runner(prog, codes, R, C):
@@ -532,13 +582,14 @@ def _eval_item(item):
             return res
         seen = set()
         r0 = RETRIED[0]
+        n_entries = sum(len(ref.operand_entries(i, o)) for i, o in enumerate(prog["ops"]))
         for R, C in FLAGS:
             for codes, outs in ref.assignments(prog, R, C, b["codes"]):
                 log, exc = execute(code, prog, codes, R, C)
                 res["evals"] += 1
                 res["forks"] += len(outs) > 1
                 o0 = outs[0]
-                if o0[1] is not None or len(o0[0]) < len(all_names(prog)) + 1:
+                if o0[1] is not None or len(o0[0]) < n_entries + 1:
                     res["nontrivial"] += 1
                 if ref.accepts(outs, log, exc):
                     continue
@@ -582,7 +633,7 @@ def _proc_setup():
     from .tables import TABDIR
 
     d = common.scratch_dir("c05p")
-    os.makedirs(os.path.join(d, "bin"))
+    _mk_unstartable(d, logging_child=True)
     for name in [f"m{n}" for n in range(1, MAXN + 1)] + ["after"]:
         path = os.path.join(d, "bin", name)
         with open(path, "w") as f:
@@ -668,6 +719,23 @@ def proc_cases(thorough):
                     for R, C in FLAGS if mode == "c" else script_flags:
                         for codes, outs in ref.assignments(prog, R, C, codeset):
                             cases.append({"kind": "chain", "mode": mode, "prog": prog, "codes": codes, "flags": [R, C]})
+    # a command that cannot be started (missing word) / a real child that dies of SIGTERM, in each position
+    kind_flags = FLAGS if thorough else (FLAGS[0], FLAGS[1])
+    kind_shapes = [0] + [t for t in shapes(2) if thorough or t[2][0] in ("&&", "||")]
+    for tree in kind_shapes:
+        n = 1 if isinstance(tree, int) else 2
+        for pos in range(n):
+            if not thorough and n == 2 and pos != (0 if tree[2][0] == "||" else 1):
+                continue  # quick: `X || m2` and `m1 && X`
+            for kind in ("missing", "sigp"):
+                for dec in DECS if thorough else ("",):
+                    ops = [("bare", "", "words", False)] * n
+                    ops[pos] = ("bare", dec, "words", False, kind)
+                    prog = mkprog("expr", tree, ops, "nl")
+                    for mode in ("c", "script") if (thorough and not dec) else ("c",):
+                        for R, C in kind_flags:
+                            for codes, outs in ref.assignments(prog, R, C, (0, 1)):
+                                cases.append({"kind": "chain", "mode": mode, "prog": prog, "codes": codes, "flags": [R, C]})
     exits = [
         ("exit 3\n", {}, [], 3),
         ("exit 0\n", {}, [], 0),
@@ -717,6 +785,8 @@ def _proc_verdict(case, log, status):
 def _ok_status(prog, codes, o):
     """No raise: status 0 is required only if the last command that ran succeeded."""
     op = prog["ops"][o[2]]
+    if op.get("kind", "alias") != "alias":
+        return "unchecked"
     return 0 if codes.get(ref.names(o[2], op)["main"], 0) == 0 else "unchecked"
 
 
